@@ -118,6 +118,36 @@ def events_tree(resp):
     return merge_rec(gen_tree.expected_tree(top))
 
 
+def dom_names_diff(tree, domns):
+    """tree: expected_tree tuples of the baseline; domns: the driver's dump of the Xerces DOM result (E/A lines)"""
+    want = []
+
+    def walk(kids):
+        for k in kids:
+            if k[0] == 'E':
+                want.append((tuple(k[1]), frozenset(tuple(a) for a in k[2])))
+                walk(k[3])
+    walk(tree)
+    got = []
+    for line in domns.split('\n'):
+        if not line:
+            continue
+        kind, qname, uri, local = (line.split('\t') + ['', '', ''])[:4]
+        if not local:
+            local = qname.split(':')[-1]    # a node created without namespace support has no local name
+        if kind == 'E':
+            got.append([(uri, local), set()])
+        elif got:
+            got[-1][1].add((uri, local))
+    got = [(n, frozenset(a)) for n, a in got]
+    if len(want) != len(got):
+        return 'number of elements: %d vs %d' % (len(want), len(got))
+    for i, (w, g) in enumerate(zip(want, got)):
+        if w != g:
+            return 'element #%d: baseline %r %r vs DOM %r %r' % (i, w[0], sorted(w[1]), g[0], sorted(g[1]))
+    return None
+
+
 def merge_rec(kids):
     out = []
     for k in gen_tree.merge(kids):
@@ -202,6 +232,12 @@ def check(ctx, case):
             d = gen_tree.tree_diff(exp, got)
             if d:
                 return {'what': 'tree-differs', 'form': desc, 'diff': d[:500], 'baseline': bout[:400].decode('utf-8', 'replace')}
+            if outf == 'xercesdom' and r.has('domns'):
+                # the events carry qualified names; the DOM nodes themselves have a namespace URI and a local name, which must be those of the
+                # baseline tree too (elements in document order, the attributes of each element as a set)
+                d = dom_names_diff(exp, r.gets('domns') or '')
+                if d:
+                    return {'what': 'dom-node-names-differ', 'form': desc, 'diff': d[:400], 'baseline': bout[:400].decode('utf-8', 'replace')}
             return None
         out = r.get('out') or b''
         if out != bout:
